@@ -9,6 +9,8 @@ package xpush
 //@   guarded_by s.Mutex: closed
 //@
 //@ struct socket
+//@   close_token closeQ when closed
+//@   close_token noPeerQ
 //@   lock Mutex level 20
 //@   guarded_by Mutex: closed sendQ noPeerQ sendExpire sendQLen bestEffort failNoPeers readyQ pipes
 //@   immutable: closeQ cv
@@ -95,3 +97,6 @@ package xpush
 //@
 //@ func (*socket).RemovePipe
 //@   before call:Unlock#1 assert !has(s.pipes, pp.ID())
+//@
+//@ func (*socket).RemovePipe
+//@   may_close p.closeQ caller
